@@ -917,8 +917,9 @@ def slices(tier):
     q = tier == "quick"
     T1 = ["f1", "u2", "g", "w", "q", "v", "vv", "x", "n", "h", "rc", "a", "mf", "c", "cv"]
     T2 = ["f2", "g0", "vd", "x", "n", "rn", "h", "a", "c"]
-    TM = ["f1", "u1", "g", "w", "v", "x", "n", "cn", "h", "a", "c"]  # triangles in R^3: vectors have three components
-    TN = ["n", "x", "g"]
+    # triangles in R^3: vectors have three components
+    TM = ["f1", "w", "v", "x", "n", "cn", "h"] if q else ["f1", "u1", "g", "w", "v", "x", "n", "cn", "h", "a", "c"]
+    TN = ["n", "g"] if q else ["n", "x", "g", "h"]
     GEOM = ["n", "x", "u1", "w", "h", "cn"]
     UN = {"R", "var", "neg", "idx", "jump", "avg", "jumpn"}
     GEO = ["n", "x", "u2", "w", "h", "a"]
@@ -943,7 +944,7 @@ def slices(tier):
             Slice("cond", ["f1", "g", "h"], [{"cond", "R"}, {"R"}], atoms=["f1", "g", "g+", "g-", "h-"]),
             Slice("two-branch", ["f1", "g", "n"], [{"R", "idx"}, {"R", "idx"}, {"add", "div"}], maxdead=1, atoms=["f1", "g", "n"]),
             Slice("deep", DEEPT, [DEEP | {"use"}] + [DEEP] * 4, maxnodes=5, simulate=40, depth=7, atoms=DEEPA),
-            Slice("geometry-manifold", GEOM, [{"R", "dot", "mul", "idx", "jumpn"}, {"R", "add", "neg"}], mesh="manifold", atoms=["n", "x", "w", "h", "cn", *pm("n", "w"), "cn-", "h-"]),
+            Slice("geometry-manifold", ["n", "w", "cn"], [{"R", "dot", "mul", "idx", "jumpn"}, {"R", "neg"}], mesh="manifold", atoms=["n", "w", "cn", *pm("n"), "w-", "cn+"]),
         ]
     else:
         out += [
